@@ -6,7 +6,12 @@ LEVEL = 'other'
 
 EVENTS = []
 _hook_on = [False]
+PROC_EVENTS = []
 def _hook(ev, args):
+    if ev in ('subprocess.Popen', 'os.system', 'os.exec', 'os.posix_spawn', 'os.fork'):
+        # processes are recorded ALWAYS (also during the un-audited helper parses of this check): some are spawned once per process and cached
+        try: PROC_EVENTS.append((ev, tuple(str(a)[:200] for a in args[:2]), _hook_on[0]))
+        except Exception: pass
     if not _hook_on[0]: return
     if ev in ('import', 'pickle.find_class', 'os.system', 'subprocess.Popen', 'open', 'exec', 'compile', 'os.exec', 'os.posix_spawn', 'os.fork'):
         try: EVENTS.append((ev, tuple(str(a)[:300] for a in args[:2])))
@@ -308,6 +313,16 @@ def run(ctx):
                                    how='a replay whose open block carries that version string; audit events during ReplayParser(file).get_info()'))
     finally:
         shutil.rmtree(tmp, ignore_errors=True)
+    # every process started while this check ran: the harness starts its own tools (the extracted model, coqc, the shell around them, the interpreter);
+    # anything else was started by the library while it parsed
+    mine = ('modelrun', 'coqc', 'bash', 'sh', 'python', 'git', 'ocaml', 'make', 'timeout')
+    # (Cryptodome asks platform.architecture() once when its Blowfish module is IMPORTED: `file -b <the interpreter>` - a fixed command of a dependency, before any file is read)
+    foreign = [(ev, a) for ev, a, on in PROC_EVENTS if not any(os.path.basename(a[0].split(' ')[0]).startswith(m) for m in mine)
+               and not (a[0] == 'file' and "'-b'" in a[1] and 'python' in a[1])]
+    ctx.case(('process-inventory', len(PROC_EVENTS)))
+    if foreign:
+        ctx.violation(dict(kind='process-spawned-while-parsing', events=[list(x) for x in foreign[:6]],
+                           how='sys.addaudithook during the whole check (benign, hostile and damaged replays in strict and lenient mode, packets that fail): subprocess.Popen / os.system / fork events other than the harness\'s own tools'))
 
 
 def replay(ctx, path):
